@@ -1,41 +1,33 @@
 (** Gov/ParamProofs.v — system parameters: the in-memory value versus the stored one.
-    [updateParam] stores [value.Bytes()] (sign dropped) but keeps [value] itself for the next
-    block, and [validateById] accepts negative decimals: after a parameter vote for a negative
-    number reaches the threshold, a node that keeps running and a node that (re)loads the
-    parameter from state disagree on it. *)
+    [updateParam] stores [value.Bytes()] (sign dropped) and keeps [value] itself for the next
+    block; since 0d636195 [validateById] only accepts positive values, so the two agree.
+    (Before that commit a parameter vote for "-5" that reached the threshold left -5 in the
+    memory of the running nodes and 5 in the state: witness in notes/g8-gov.md.) *)
 From Coq Require Import ZArith NArith List Bool Lia.
 From Verif Require Import Gov.Model.
 Import ListNotations.
 Open Scope Z_scope.
 
-Definition pp_cfg : cfg := {| c_ver := 2; c_fixed := true; c_ids := [77%N; 99%N]; c_defaults := [(0%N, 3); (1%N, 10000); (2%N, 50); (3%N, 1)] |}.
-Definition pp_g0 : gstate :=
-  {| g_no := 1;
-     g_d := {| d_bal := [(0%N, 90000); (1%N, 90000)]; d_sysbal := 0; d_stakes := []; d_total := 0; d_votes := []; d_results := [];
-               d_vtotals := []; d_params := []; d_vpr := [] |};
-     g_m := {| m_pcur := []; m_pnext := []; m_vpr := vpr_empty |} |}.
+Theorem accepted_param_candidate_positive issue v : validate_by_id issue v = true -> 0 < v.
+Proof. unfold validate_by_id. destruct (Z.leb_spec v 0); [discriminate | auto]. Qed.
 
-Definition pp_run (ops : list op) : gstate := fold_left (fun g o => snd (step pp_cfg g o)) ops pp_g0.
+(** every candidate of an accepted parameter ballot is a positive number: what updateParam
+    stores ([Z.abs]) is what it keeps in memory *)
+Theorem param_vote_no_sign_loss issue : forall vals,
+  all_valid_cands issue vals = None ->
+  forall s, In s vals -> exists z, parse_dec s = Some z /\ 0 < z /\ Z.abs z = z.
+Proof.
+  induction vals as [|v r IH]; simpl; intros H s Hs; [tauto|].
+  destruct (parse_dec v) as [z|] eqn:P; [|discriminate].
+  destruct (validate_by_id issue z) eqn:V; [|discriminate].
+  destruct Hs as [<-|Hs].
+  - exists z. pose proof (accepted_param_candidate_positive _ _ V). repeat split; auto. apply Z.abs_eq. lia.
+  - now apply IH.
+Qed.
 
-(** "-5" as the bytes of the decimal string *)
-Definition minus5 : cand := [45; 53]%N.
+(** threshold never fails *)
+Theorem threshold_total total power : threshold total power <> None.
+Proof. unfold threshold. destruct (power =? 0); [discriminate|]. destruct (power / 100 =? 0); discriminate. Qed.
 
-Definition pp_history : list op :=
-  [OTx (TStake 0%N 50000); OBlock 2; OTx (TVoteDAO 0%N (Some 2%N) [minus5]); OBlock 3].
-
-(** params_mem = load_params(state) fails at a block boundary of an ordinary history *)
-Theorem params_mem_equals_reload_refuted :
-  exists c (g : gstate),
-    get_param c (g_m g) 1%N <> get_param c (reload c (g_d g)) 1%N.
-Proof. exists pp_cfg, (pp_run pp_history). vm_compute. discriminate. Qed.
-
-(** and the two nodes then decide the same transaction differently *)
-Theorem restart_changes_validation_refuted :
-  exists c (g : gstate) t,
-    fst (fst (apply_tx c (g_no g) (g_d g) (g_m g) t)) = EOk /\
-    fst (fst (apply_tx c (g_no g) (g_d g) (reload c (g_d g)) t)) = ETooSmall.
-Proof. exists pp_cfg, (pp_run pp_history), (TStake 1%N 3). vm_compute. split; reflexivity. Qed.
-
-(** for candidates that are positive the stored and the in-memory value agree *)
-Theorem positive_param_no_sign_loss v : 0 < v -> Z.abs v = v.
-Proof. intros. apply Z.abs_eq. lia. Qed.
+Example param_example : all_valid_cands 2%N [[49; 51]%N] = None /\ all_valid_cands 2%N [[45; 53]%N] = Some EInvalidCand.
+Proof. split; reflexivity. Qed.
